@@ -231,11 +231,10 @@ func (g Gateway) Set(ctx context.Context, in *hydrapb.SetRequest) (*hydrapb.SetR
 
 			// this is a meaningless setting
 			if !swampRequest.GetCreateIfNotExist() && !swampRequest.GetOverwrite() {
-				swampResponses = append(swampResponses, &hydrapb.SwampResponse{
-					SwampName:       swampRequest.SwampName,
-					KeysAndStatuses: []*hydrapb.KeyStatusPair{},
-					ErrorCode:       hydrapb.SwampResponse_CanNotBeExecuted.Enum(),
-				})
+				// report through the one response entry of this swamp (appending a second
+				// entry here made every such request answer with two entries)
+				swampResponse.KeysAndStatuses = []*hydrapb.KeyStatusPair{}
+				swampResponse.ErrorCode = hydrapb.SwampResponse_CanNotBeExecuted.Enum()
 				return
 			}
 
@@ -243,11 +242,8 @@ func (g Gateway) Set(ctx context.Context, in *hydrapb.SetRequest) (*hydrapb.SetR
 			if !swampRequest.GetCreateIfNotExist() {
 				isExist, err := hydraInterface.IsExistSwamp(swampRequest.GetIslandID(), swampName)
 				if err != nil || !isExist {
-					swampResponses = append(swampResponses, &hydrapb.SwampResponse{
-						SwampName:       swampRequest.SwampName,
-						KeysAndStatuses: []*hydrapb.KeyStatusPair{},
-						ErrorCode:       hydrapb.SwampResponse_SwampDoesNotExist.Enum(),
-					})
+					swampResponse.KeysAndStatuses = []*hydrapb.KeyStatusPair{}
+					swampResponse.ErrorCode = hydrapb.SwampResponse_SwampDoesNotExist.Enum()
 					return
 				}
 			}
